@@ -77,6 +77,9 @@ ObsVerdict(b, e, a, grp, ref) ==
     IF Has(b, "ret_ok") /\ e.ret # "ok" THEN "returned-" \o e.retk
     ELSE IF Has(b, "ret_err") /\ e.retk # "err" THEN "error-expected-got-" \o e.retk
     ELSE IF Has(b, "no_panic") /\ e.retk \notin {"ok", "err"} THEN "panic-or-crash"
+    ELSE IF Has(b, "no_crash") /\ e.retk \notin {"ok", "err", "panic"} THEN "crash"
+    \* a call that panicked (where the statement tolerates that) or crashed left no observation record
+    ELSE IF e.retk \notin {"ok", "err"} THEN (IF Has(b, "no_crash") THEN "ok" ELSE "panic-or-crash")
     ELSE IF Has(b, "outside") /\ e.outd0 # e.outd1 THEN "wrote-outside-destination"
     ELSE IF Has(b, "srcsame") /\ "srcd0" \in DOMAIN e /\ e.srcd0 # e.srcd1 THEN "source-modified"
     ELSE IF Has(b, "untouched") /\ e.dst # e.dst0 THEN "destination-touched"
